@@ -3,7 +3,7 @@
 Stages
   0. harness/props/c13_translate.py re-reads the schemathesis source and rewrites coq/theories/C13/Gen_C13.v (the entropy plan:
      one entry per draw site, Seeded/Ambient).  A call site that disappeared or changed shape -> broken tie.
-  1. proofs (Properties_C13.v: 18 theorems about run / gen_sites / interleave).
+  1. proofs (Properties_C13.v: 19 theorems about run / gen_sites / interleave).
   2. correspondence, plan vs runtime: the engine is run in fresh subprocesses with the Hypothesis boundary instrumented
      (harness/props/c13_runner.py): every PRNG Hypothesis hands to a test is recorded with its explicit seed and whether it was
      consulted.  Compared with the SAME Gallina definitions the theorems are about, evaluated by vm_compute:
@@ -219,6 +219,8 @@ def evidence(run: dict, phase: str) -> dict:
         "unseeded_tests": sorted({e["test"].split(".")[-1] for e in ent if e["seed"] is None and not e["derandomize"]}),
         "boundary": sum(1 for b in run["boundary_draws"] if b == ev_phase),
         "seeds": [(e["test"].split(".")[-1], e["seed"]) for e in ent if e["seed"] is not None],
+        # sizes of Hypothesis' process-global local-constants pool seen by each seeded test (see finding F6)
+        "pool": sorted(tuple(e.get("pool") or []) for e in ent if e["seed"] is not None),
     }
 
 
@@ -309,6 +311,12 @@ def compare_pair(chk, plan, sc: Scenario, seed, label: str, r1: dict, r2: dict, 
             kinds.append("Unseeded")
         if e1["boundary"] or e2["boundary"]:
             kinds.append("OsRandom")
+        if e1["pool"] != e2["pool"] and len(a) == len(b):
+            # (only the values drawn from the pool can differ: the number of requests stays the same)
+            # foreign ambient state, not a site of the schemathesis source: attributed directly (finding F6), not through the plan
+            chk.count(f"attributed:LocalConstants:{phase}")
+            chk.fail("same seed, different requests (Hypothesis local-constants pool differs)", case, None, region="hypothesis_local_constants_pool")
+            continue
         if not same_hash and not kinds:
             kinds.append("HashOrder")
         explained = None
@@ -539,6 +547,13 @@ def run(chk: core.Check):
                 wstage["comparisons"] += 1
                 chk.seen({"workers": [sc.name, w, phase]}, len(a) >= 2)
                 bad = [op for op in ops if Counter(req_key(r) for r in a if op_key(r) == op) != Counter(req_key(r) for r in b if op_key(r) == op)]
+                same_counts = all(sum(1 for r in a if op_key(r) == op) == sum(1 for r in b if op_key(r) == op) for op in ops)
+                if bad and ev1["pool"] != evn["pool"] and same_counts:
+                    wstage["attributed_local_constants"] = wstage.get("attributed_local_constants", 0) + 1
+                    chk.fail(f"{w} workers: per-operation multiset differs (Hypothesis local-constants pool changed while other workers imported modules)",
+                             {"scenario": sc.name, "seed": seeds[sc.name], "phase": phase, "workers": w, "operations": bad}, {"pool_one": ev1["pool"], "pool_many": evn["pool"]},
+                             region="hypothesis_local_constants_pool")
+                    continue
                 if bad:
                     chk.fail(f"{w} workers: per-operation multiset of requests differs from the 1-worker run",
                              {"scenario": sc.name, "seed": seeds[sc.name], "phase": phase, "workers": w, "operations": bad, "schema": sc.schema},
@@ -575,7 +590,14 @@ def _safe_child(spec, hs):
         return exc
 
 
-WITNESS_SCHEMAS = {"examples": W_EXAMPLES, "coverage": W_COVERAGE, "multipart": W_MULTIPART, "negative_fuzzing": W_NEG_FUZZ, "swagger2_examples": W_SW2}
+W_POOL = _doc({
+    "/op0/{id}": {"put": _op([{"name": "id", "in": "path", "required": True, "schema": {"type": "string", "enum": ["k1", "k2"]}},
+                              q("p0", {"type": "string", "maxLength": 8}), q("p1", {"type": "string"}), q("p2", {"type": "string", "maxLength": 3})],
+                             body={"type": "object", "properties": {"f0": {"type": "string"}}, "additionalProperties": False})},
+    "/op2/{id}": {"post": _op([{"name": "id", "in": "path", "required": True, "schema": {"type": "integer", "minimum": 1, "maximum": 50}}],
+                              body={"type": "object", "properties": {"f0": {"type": "integer"}, "f1": {"type": "string"}}, "required": ["f0", "f1"], "additionalProperties": False})},
+})
+WITNESS_SCHEMAS = {"pool": W_POOL, "examples": W_EXAMPLES, "coverage": W_COVERAGE, "multipart": W_MULTIPART, "negative_fuzzing": W_NEG_FUZZ, "swagger2_examples": W_SW2}
 
 
 def witness_fails(w) -> bool:
@@ -583,6 +605,11 @@ def witness_fails(w) -> bool:
     the hash-order witnesses, whose effect needs two hash seeds that order the set differently."""
     schema = WITNESS_SCHEMAS[w["schema"]]
     spec = {"schema": schema, "phases": w["phases"], "modes": w["modes"], "seed": w["seed"], "workers": 1, "max_examples": w.get("max_examples", 4), "repeat": 1}
+    if w.get("preimport_pair"):
+        # same seed, one worker, two fresh processes; the second imports every schemathesis module before the run
+        with ThreadPoolExecutor(max_workers=2) as ex:
+            a, b = list(ex.map(lambda pre: child({**spec, "preimport": pre}, "0")["runs"][0]["requests"], [False, True]))
+        return a != b
     pairs = w["hashseeds"]
     with ThreadPoolExecutor(max_workers=6) as ex:
         outs = list(ex.map(lambda hs: child(spec, hs)["runs"][0]["requests"], [h for pair in pairs for h in pair]))
